@@ -271,11 +271,11 @@ struct bind_s {
 	const char *ofmt;
 };
 static const struct bind_s binds[] = {
-	{C_YMD, "+1d", NULL}, {C_YMD, "-31d", NULL}, {C_YMD, "+366d", NULL}, {C_YMD, "-1w", NULL}, {C_YMD, "+53w", NULL}, {C_YMD, "-146097d", NULL},
-	{C_YWD, "+1d", NULL}, {C_YWD, "-31d", NULL}, {C_YWD, "+366d", NULL}, {C_YWD, "-1w", NULL}, {C_YWD, "+53w", NULL}, {C_YWD, "-146097d", NULL},
-	{C_YD, "+1d", NULL}, {C_YD, "-31d", NULL}, {C_YD, "+366d", NULL}, {C_YD, "-1w", NULL}, {C_YD, "+53w", NULL}, {C_YD, "-146097d", NULL},
-	{C_YMCW, "+1d", NULL}, {C_YMCW, "-31d", NULL}, {C_YMCW, "+366d", NULL}, {C_YMCW, "-1w", NULL}, {C_YMCW, "+53w", NULL}, {C_YMCW, "-146097d", NULL},
-	{C_BIZDA, "+1d", NULL}, {C_BIZDA, "-31d", NULL}, {C_BIZDA, "+366d", NULL}, {C_BIZDA, "-1w", NULL}, {C_BIZDA, "+53w", NULL}, {C_BIZDA, "-146097d", NULL},
+	{C_YMD, "+1d", NULL}, {C_YMD, "-31d", NULL}, {C_YMD, "+366d", NULL}, {C_YMD, "-1w", NULL}, {C_YMD, "+53w", NULL}, {C_YMD, "-1461d", NULL},
+	{C_YWD, "+1d", NULL}, {C_YWD, "-31d", NULL}, {C_YWD, "+366d", NULL}, {C_YWD, "-1w", NULL}, {C_YWD, "+53w", NULL}, {C_YWD, "-1461d", NULL},
+	{C_YD, "+1d", NULL}, {C_YD, "-31d", NULL}, {C_YD, "+366d", NULL}, {C_YD, "-1w", NULL}, {C_YD, "+53w", NULL}, {C_YD, "-1461d", NULL},
+	{C_YMCW, "+1d", NULL}, {C_YMCW, "-31d", NULL}, {C_YMCW, "+366d", NULL}, {C_YMCW, "-1w", NULL}, {C_YMCW, "+53w", NULL}, {C_YMCW, "-1461d", NULL},
+	{C_BIZDA, "+1d", NULL}, {C_BIZDA, "-31d", NULL}, {C_BIZDA, "+366d", NULL}, {C_BIZDA, "-1w", NULL}, {C_BIZDA, "+53w", NULL}, {C_BIZDA, "-1461d", NULL},
 	/* thorough only from here */
 	{C_YMD, "-1d", NULL}, {C_YMD, "+30d", NULL}, {C_YMD, "-365d", NULL}, {C_YMD, "+1w", NULL}, {C_YMD, "-52w", NULL}, {C_YMD, "+800d", NULL},
 	{C_YWD, "-1d", NULL}, {C_YWD, "+30d", NULL}, {C_YWD, "-365d", NULL}, {C_YWD, "+1w", NULL}, {C_YWD, "-52w", NULL}, {C_YWD, "+800d", NULL},
